@@ -24,7 +24,7 @@
      HSS s | r1 | .. | rk | i.. (array, vector), slice_slice_vec k-1 times, slice_deref_vec
      HRR r1 | .. | rk | i..     slice_range_vec k-1 times, range_deref_vec
      HDS r1 | .. | rk           slice_range_vec chain (the range vector of a[r1]..[rk]), slice_dim_name of every name
-     HDR r                      range_dim_name of every name
+     HDR r1 | .. | rk           the same chain, range_dim_name of every name
      HT chars | i               string_deref                  -> ok k | oob -1
      HU chars | from to         slice_string                  -> ok chars | oob -1
      HP s | s    HQ s | s       arr_addsub / arr_matmul       -> ok shape | size | nil
@@ -167,8 +167,17 @@ let run_line line =
         | Exc e -> "HDS " ^ show_exc e
         | Ok v -> "HDS ok " ^ ints (List.init (2 * dims) (fun k -> slice_dim_name v (nat_of_int k))))
      | "HDR" ->
-       let v = zs (nums (g 0)) in
-       "HDR ok " ^ ints (List.init (List.length v) (fun k -> range_dim_name v (nat_of_int k)))
+       let n = List.length gs in
+       let v1 = zs (nums (g 0)) in
+       let dims = List.length v1 / 2 in
+       let rec chain v k =
+         if k >= n then Ok v
+         else match slice_range_vec (nat_of_int dims) (Some v) (Some (zs (nums (g k)))) with
+           | Ok v2 -> chain v2 (k + 1)
+           | Exc e -> Exc e in
+       (match chain v1 1 with
+        | Exc e -> "HDR " ^ show_exc e
+        | Ok v -> "HDR ok " ^ ints (List.init (2 * dims) (fun k -> range_dim_name v (nat_of_int k))))
      | "HT" ->
        (match nums (g 1) with
         | [i] -> "HT " ^ show_res (fun k -> string_of_int (int_of_z k)) (string_deref (Some (zs (nums (g 0)))) (z_of_int i))
